@@ -509,3 +509,69 @@ def canonNumsB (prevDigit : Bool) : Str → Bool
     canonNumsB c.isDigit cs
 
 end Huginn.SigText.Spec
+
+/-! ## the signature grammars, declaratively (as concatenations) -/
+namespace Huginn.SigText.Spec
+open Huginn.Sig Huginn.SigText
+
+/-- `t` is a decimal numeral (leading zeros allowed) of value `v ≤ max` -/
+def NumT (max : Nat) (t : Str) (v : Nat) : Prop :=
+  t ≠ [] ∧ (∀ c ∈ t, c.isDigit = true) ∧ decVal t = v ∧ v ≤ max
+
+def OptNumT (max : Nat) (t : Str) : Option Nat → Prop
+  | none => t = ['*']
+  | some v => NumT max t v
+
+def VerT (t : Str) : IpVersion → Prop
+  | .v4 => t = ['4'] | .v6 => t = ['6'] | .any => t = ['*']
+
+/-- `n`, `n+d`, `n+?`, `n-` -/
+def TtlT (t : Str) : Ttl → Prop
+  | .value v => NumT 255 t v
+  | .distance a b => ∃ ta tb, t = ta ++ '+' :: tb ∧ NumT 255 ta a ∧ NumT 255 tb b
+  | .guess v => ∃ tv, t = tv ++ ['+', '?'] ∧ NumT 255 tv v
+  | .bad v => ∃ tv, t = tv ++ ['-'] ∧ NumT 255 tv v
+
+/-- `*`, `mss*n`, `mtu*n`, `%n`, `n` -/
+def WsT (t : Str) : WindowSize → Prop
+  | .any => t = ['*']
+  | .mss v => ∃ tv, t = 'm' :: 's' :: 's' :: '*' :: tv ∧ NumT 255 tv v
+  | .mtu v => ∃ tv, t = 'm' :: 't' :: 'u' :: '*' :: tv ∧ NumT 255 tv v
+  | .mod v => ∃ tv, t = '%' :: tv ∧ NumT 65535 tv v
+  | .value v => NumT 65535 t v
+
+/-- `eol+n`, `nop`, `mss`, `ws`, `sok`, `sack`, `ts`, `?n` -/
+def OptT (t : Str) : TcpOption → Prop
+  | .eol v => ∃ tv, t = 'e' :: 'o' :: 'l' :: '+' :: tv ∧ NumT 255 tv v
+  | .unknown v => ∃ tv, t = '?' :: tv ∧ NumT 255 tv v
+  | .nop => t = "nop".toList | .mss => t = "mss".toList | .ws => t = "ws".toList
+  | .sok => t = "sok".toList | .sack => t = "sack".toList | .ts => t = "ts".toList
+
+/-- the documented quirk names (p0f.fp / the doc comments of `tcp::Quirk`) -/
+def quirkText : Quirk → Str
+  | .df => "df".toList | .nonZeroID => "id+".toList | .zeroID => "id-".toList | .ecn => "ecn".toList
+  | .mustBeZero => "0+".toList | .flowID => "flow".toList | .seqNumZero => "seq-".toList
+  | .ackNumNonZero => "ack+".toList | .ackNumZero => "ack-".toList | .nonZeroURG => "uptr+".toList
+  | .urg => "urgf+".toList | .push => "pushf+".toList | .ownTimestampZero => "ts1-".toList
+  | .peerTimestampNonZero => "ts2+".toList | .trailingNonZero => "opt+".toList
+  | .excessiveWindowScaling => "exws".toList | .optBad => "bad".toList
+
+def PayT (t : Str) : PayloadSize → Prop
+  | .zero => t = ['0'] | .nonZero => t = ['+'] | .any => t = ['*']
+
+/-- texts of list elements, one by one -/
+inductive Texts {α} (R : Str → α → Prop) : List Str → List α → Prop
+  | nil : Texts R [] []
+  | cons {t x ts xs} : R t x → Texts R ts xs → Texts R (t :: ts) (x :: xs)
+
+/-- **the TCP signature language**: `ver:ittl:olen:mss:wsize,scale:olayout:quirks:pclass`, every field
+in any of its spellings (numerals may carry leading zeros), both lists possibly empty -/
+def TcpLine (l : Str) (s : TcpSig) : Prop :=
+  ∃ tv tt to tm tw tsc tol tqs tp,
+    l = tv ++ ':' :: (tt ++ ':' :: (to ++ ':' :: (tm ++ ':' :: (tw ++ ',' :: (tsc ++ ':' ::
+      (joinWith ',' tol ++ ':' :: (joinWith ',' tqs ++ ':' :: tp))))))) ∧
+    VerT tv s.version ∧ TtlT tt s.ittl ∧ NumT 255 to s.olen ∧ OptNumT 65535 tm s.mss ∧
+    WsT tw s.wsize ∧ OptNumT 255 tsc s.wscale ∧ Texts OptT tol s.olayout ∧
+    Texts (fun t q => t = quirkText q) tqs s.quirks ∧ PayT tp s.pclass
+
+end Huginn.SigText.Spec
